@@ -138,7 +138,17 @@ func c01Gen(rng *verifsim.RNG, idx int, tier string) *Plan {
 			a.If = iw.Name
 			p.Actions = append(p.Actions, a)
 		case 1:
-			p.Actions = append(p.Actions, Action{At: at, Kind: "addrs", If: iw.Name, Addrs: pickAddrs(rng, iw.LL, 6)})
+			as := pickAddrs(rng, iw.LL, 6)
+			if rng.Bool(0.12) {
+				// every address is there but none is usable for a while (duplicate
+				// address detection after a flush, only temporary or deprecated ones
+				// left): wildcards have nothing to offer, which is not "nothing to say"
+				for j := range as {
+					as[j].Flags |= []uint32{0x40, 0x20, 0x01}[rng.Intn(3)]
+				}
+				p.Actions = append(p.Actions, Action{At: at + int64(rng.Dur(200*time.Millisecond, 5*time.Second)), Kind: "addrs", If: iw.Name, Addrs: pickAddrs(rng, iw.LL, 6)})
+			}
+			p.Actions = append(p.Actions, Action{At: at, Kind: "addrs", If: iw.Name, Addrs: as})
 		case 2:
 			p.Actions = append(p.Actions, Action{At: at, Kind: "routes", Routes: pickRoutes(rng, 5, rng.Bool(0.1))})
 		case 3:
